@@ -98,25 +98,48 @@ class C11(Oracle):
             while self.row_i < len(rows) and rows[self.row_i][0] < T:
                 batch.append(rows[self.row_i])
                 self.row_i += 1
-            touched = {}
+            keys_of = {}      # station -> set of keys naming it in this window
+            by_plug = {}      # (station, plug) -> {key: last value through that key}
             for (t0, key, plug, val) in batch:
                 for sid in self.station_cell:
                     if self._names(key, sid) and (sid, plug) in self.expected_price:
-                        prev_key = touched.get((sid,))
-                        if prev_key is not None and prev_key != key:
-                            ctx.run.probes["station_named_by_two_keys_in_one_window"] += 1
-                        touched[(sid,)] = key
+                        keys_of.setdefault(sid, set()).add(key)
+                        by_plug.setdefault((sid, plug), {})[key] = float(val)
                         self.expected_price[(sid, plug)] = float(val)
                         self.n_price += 1
+            self.alternatives = {}
+            for (sid, plug), m in by_plug.items():
+                if len(m) > 1:
+                    # the same station and plug named through different keys in one window: the statement does not order
+                    # them, any of the named prices is accepted
+                    self.alternatives[(sid, plug)] = set(m.values())
+                    ctx.run.probes["same_plug_named_by_two_keys_in_one_window"] += 1
+            for sid, ks in keys_of.items():
+                if len(ks) > 1:
+                    ctx.run.probes["station_named_by_two_keys_in_one_window"] += 1
             if batch:
                 ctx.run.probes["price_rows_applied"] += len(batch)
+                if any(not any(self._names(key, sid) for (_, key, _, _) in batch) for sid in self.station_cell):
+                    ctx.run.probes["price_window_omits_a_station"] += 1
+                if self.prices["by"] == "geoid" and any(h3.h3_get_resolution(key) > nxt.sim_h3_search_resolution for (_, key, _, _) in batch):
+                    ctx.run.probes["region_finer_than_search_cell"] += 1
+        else:
+            batch = []
         for sid, st in nxt.stations.items():
             for cid, cs in st.state.items():
                 want = self.expected_price.get((sid, cid))
-                if want is not None and cs.price_per_kwh != want:
-                    named = "omitted" if self.prices is None else ""
-                    out.append(V("C11", "tariff", k, f"station {sid} plug {cid} costs {cs.price_per_kwh!r}, the table in force says {want!r}",
-                                 key="C11/tariff"))
+                if want is None or cs.price_per_kwh == want:
+                    continue
+                alts = getattr(self, "alternatives", {}).get((sid, cid))
+                if alts and cs.price_per_kwh in alts:
+                    self.expected_price[(sid, cid)] = cs.price_per_kwh
+                    continue
+                # classify the cause (for the findings file): set by a row that does not name the station / entry lost
+                foreign = [r for r in batch if r[2] == cid and float(r[3]) == cs.price_per_kwh and not self._names(r[1], sid)]
+                cause = "foreign_region" if foreign else ("entry_lost" if any(self._names(r[1], sid) and r[2] == cid for r in batch) else "other")
+                out.append(V("C11", "tariff", k, f"station {sid} plug {cid} costs {cs.price_per_kwh!r}, the table in force says {want!r}"
+                             + (f" (price taken from row {foreign[0]} which does not name this station)" if foreign else ""),
+                             key=f"C11/tariff/{cause}"))
         return out
 
     def aborted(self, run, k, exc):
